@@ -150,6 +150,9 @@ func genC03(g GenCtx) interface{} {
 	sc := &Ctrl{Prop: g.Prop}
 	sc.Bufsiz = pickInt(rng, 2, 3, 5, 10, 100)
 	sc.PeriodMs = pickInt(rng, 50, 200, 1000, 10000, 60000)
+	if g.Idx%8 == 1 {
+		sc.PeriodMs = pickInt(rng, 50, 200, 1000)
+	}
 	if rng.Intn(3) > 0 {
 		sc.Filter = randFilter(rng)
 	}
@@ -164,13 +167,18 @@ func genC03(g GenCtx) interface{} {
 	sc.VaryLat = rng.Intn(2) == 0
 	sc.Faults = map[string]world.Fault{}
 	kinds := []string{"watch-connect-error", "watch-connect-timeout", "watch-connect-canceled-error", "watch-close-mid", "watch-close-after-burst", "watch-close-idle", "watch-status-frame",
-		"watch-bookmark", "watch-drop", "watch-dup", "watch-replay", "watch-badobj", "watch-connect-delay", "watch-connect-hang"}
+		"watch-bookmark", "watch-drop", "watch-dup", "watch-replay", "watch-replay-idle", "watch-badobj", "watch-connect-delay", "watch-connect-hang"}
 	if rng.Intn(5) > 0 {
 		for _, k := range kinds {
 			if rng.Intn(3) == 0 {
 				sc.Faults[k] = world.Fault{Budget: 1 + rng.Intn(3), Denom: 2 + rng.Intn(5)}
 			}
 		}
+	}
+	if g.Idx%8 == 1 {
+		// the cache is pushed away from an unchanging server: only a relist
+		// that is actually reconciled brings it back
+		sc.Faults["watch-replay-idle"] = world.Fault{Budget: 2 + rng.Intn(3), Denom: 1 + rng.Intn(2)}
 	}
 	switch rng.Intn(10) {
 	case 0:
@@ -260,7 +268,9 @@ func runCtrl(sci interface{}) {
 	}
 	h := world.NewH(srv, sc.Filter, sc.period(), sc.LogYield)
 	h.NoRelist = sc.PeriodMs <= 0
-	h.ExpectNoOverflow = sc.Bufsiz >= 100 && len(sc.Acts) <= 60
+	// no hand-off can overflow while the whole server log (initial objects
+	// included: a reconnect from a stale version re-sends all of it) fits a buffer
+	h.ExpectNoOverflow = sc.Bufsiz >= 100 && len(sc.Init)+len(sc.Acts) <= 60
 	h.Start()
 	detsim.SetInvariant(h.Invariant)
 	maxLat := ms(sc.ListLatMs[0] + sc.ListLatMs[1])
